@@ -4,6 +4,12 @@ BINS = {
     "verifh": "./internal/verifh/",
     "bastion": "./internal/feeder/bastion/",
     "omni": "./omniwitness/",
+    "feedbastion": "./cmd/feedbastion/",
+}
+
+# programs of the repository that some checks run as real child processes
+PROGS = {
+    "omnibin": "./cmd/omniwitness/",
 }
 
 HIST_ASSUME = [
@@ -113,7 +119,7 @@ PROPS = {
     },
     "C11": {
         "level": "exploration",
-        "level_text": "Round-trip and differential testing of parseBody and Proof.Marshal/Unmarshal: generated triples written by two writers must parse back exactly; 21 classes of bodies malformed by construction must be refused with zero data; generated byte strings are compared with a strict reference parser written from the c2sp text; proofs of 0-64 hashes of 0-64 bytes round-trip in both directions. Native fuzzing of both parsers in the thorough tier.",
+        "level_text": "Round-trip and differential testing of parseBody and Proof.Marshal/Unmarshal: generated triples written by two writers must parse back exactly; 21 classes of bodies malformed by construction must be refused with zero data; generated byte strings are compared with a strict reference parser written from the c2sp text; proofs of 0-64 hashes of 0-64 bytes round-trip in both directions. The real writer of cmd/feedbastion (bastionClient.Update, reached from an in-package overlay test) is round-tripped end to end: its requests go through a stub bastion into the exported FeedBastion endpoint and a recording witness must receive exactly the triple that was written. Native fuzzing of both parsers in the thorough tier.",
         "level_note": "Tolerance region where the code may be more lenient than the reference and the property makes no claim: CR characters, leading zeros or '+' on the number, lines longer than 4000 bytes.",
         "technique": "property-based round-trip + differential testing against a reference parser (rapid; go native fuzzing in thorough)",
         "assumptions": ["reference parser written from c2sp.org/tlog-witness add-checkpoint body grammar"],
@@ -121,6 +127,7 @@ PROPS = {
             "body": {"bin": "bastion", "run": "TestC11Body", "checks": {"quick": 6000, "thorough": 6000000}, "shards": {"quick": 4, "thorough": 16}},
             "proof": {"bin": "bastion", "run": "TestC11Proof", "checks": {"quick": 3000, "thorough": 3000000}, "shards": {"quick": 2, "thorough": 16}},
             "known": {"bin": "bastion", "run": "TestC11Known", "kind": "plain"},
+            "writer": {"bin": "feedbastion", "run": "TestC11FeedbastionWriter", "checks": {"quick": 400, "thorough": 64000}, "shards": {"quick": 1, "thorough": 16}},
         },
     },
     "C10": {
@@ -197,13 +204,14 @@ PROPS = {
     },
     "C06": {
         "level": "fault_enumeration",
-        "level_text": "Crash-point enumeration: for generated histories on file-backed SQLite (pool of one connection) the serving child process SIGKILLs itself at EVERY database-driver call boundary (before and after each begin/prepare/query/row fetch/exec/statement close/commit/rollback, including table creation); a fresh process reopens the file with the plain driver; each log must hold the old or the new checkpoint, complete and validly cosigned, the log list must be exactly the logs holding a checkpoint, every acknowledged update must still be in force, and the restarted witness must refuse forks (three presentations), accept the honest continuation and really store it. Half of the histories contain a clean restart (requests split over two processes) before the crash points. Thorough adds SIGKILL from outside at drawn instants while the child loops.",
+        "level_text": "Crash-point enumeration: for generated histories on file-backed SQLite (pool of one connection) the serving child process SIGKILLs itself at EVERY database-driver call boundary (before and after each begin/prepare/query/row fetch/exec/statement close/commit/rollback, including table creation); a fresh process reopens the file with the plain driver; each log must hold the old or the new checkpoint, complete and validly cosigned, the log list must be exactly the logs holding a checkpoint, every acknowledged update must still be in force, and the restarted witness must refuse forks (three presentations), accept the honest continuation and really store it. Half of the histories contain a clean restart (requests split over two processes) before the crash points. Thorough adds SIGKILL from outside at drawn instants while the child loops. Part 'binary' runs the real cmd/omniwitness program (built from the tree; its database set-up in monolith.go included) on a SQLite file against stub logs, SIGKILLs it in the middle of an update (timed from the moment its feeder fetched the new checkpoint) or right after an acknowledged one, restarts it on the same file with the logs unreachable, and demands old-or-new, fully signed, nothing acknowledged lost, then catch-up.",
         "level_note": "SIGKILL keeps the OS page cache: this decides atomicity and acknowledge-after-commit ordering under process death, not durability under power loss. Instants inside SQLite's commit are only sampled (random-kill part).",
         "technique": "exhaustive crash-point injection at driver-call boundaries over rapid-generated histories (child processes), plus randomized kill instants",
         "assumptions": HIST_ASSUME + ["the OS keeps written pages of a killed process (no power loss)"],
         "parts": {
             "points": {"bin": "verifh", "run": "TestC06Points", "checks": {"quick": 8, "thorough": 1600}, "shards": {"quick": 1, "thorough": 16}, "shrinktime": "60s"},
             "random": {"bin": "verifh", "run": "TestC06Random", "checks": {"quick": 20, "thorough": 9600}, "shards": {"quick": 1, "thorough": 16}, "shrinktime": "20s"},
+            "binary": {"bin": "omni", "run": "TestC06Binary", "prog": "omnibin", "checks": {"quick": 4, "thorough": 480}, "shards": {"quick": 2, "thorough": 16}, "shrinktime": "60s"},
         },
     },
     "C05": {
